@@ -42,6 +42,28 @@ def _planets(rebound, close=False):
     return s
 
 
+def _ds_ptr(rebound, gen, sim):
+    import ctypes
+    off = [d["offset"] for d in gen.descriptors(rebound) if d["name"] == "display_settings"][0]
+    return ctypes.c_void_p.from_address(ctypes.addressof(sim) + off)
+
+
+def display_settings_on(rebound, gen, sim):
+    import ctypes
+    rebound.clibrebound.reb_simulation_add_display_settings(ctypes.byref(sim))
+
+
+def display_settings_off(rebound, gen, sim):
+    """what a C user does: free(r->display_settings); r->display_settings = NULL;"""
+    import ctypes
+    p = _ds_ptr(rebound, gen, sim)
+    if p.value:
+        libc = ctypes.CDLL(None)
+        libc.free.argtypes = [ctypes.c_void_p]
+        libc.free(p.value)
+        p.value = None
+
+
 def _set(sim, integ, opts):
     sim.integrator = integ
     for path, v in opts:
@@ -82,6 +104,8 @@ def run_history(rebound, gen, h, want_streams=False):
         _set(sim, h["integrator"], h["opts"])
         sim.dt = 0.05
         sim.steps(h["k0"])
+        if h["k0"] % 2 == 0:
+            display_settings_on(rebound, gen, sim)      # snapshot 0 holds the fixed-size pointer field
         fd, fn = tempfile.mkstemp(prefix="c05arch", suffix=".bin"); os.close(fd); os.remove(fn)
         try:
             sim.save_to_file(fn, delete_file=True)
@@ -90,7 +114,9 @@ def run_history(rebound, gen, h, want_streams=False):
                    ("switch back", lambda s: _set(s, h["integrator"], h["opts"])),
                    ("add_variation", lambda s: s.add_variation() if s.integrator in ("ias15", "leapfrog") else None),
                    ("remove particle", lambda s: s.remove(s.N_real - 1) if s.N_var == 0 else None),
-                   ("reset only", lambda s: s.reset_integrator())]
+                   ("reset only", lambda s: s.reset_integrator()),
+                   ("display_settings removed", lambda s: display_settings_off(rebound, gen, s)),      # fixed-size pointer vanishes
+                   ("display_settings added", lambda s: display_settings_on(rebound, gen, s))]
             for i, (name, op) in enumerate(ops):
                 try:
                     op(sim)
